@@ -662,8 +662,6 @@ where
         exhaustive: false,
         inconclusive: None,
     };
-    // A failure (or an environment problem) in an earlier part stops that part's shards; it must not silence this one.
-    env.abort.store(false, Ordering::Relaxed);
     let shards = env.shards.max(1);
     let per_shard = opts.cases.div_ceil(shards as u64).max(1);
     let results: Vec<(Stats, Option<Failure>)> = std::thread::scope(|s| {
@@ -753,6 +751,12 @@ where
             report.failure = None;
         }
     }
+    // The stop flag is raised by the first failing shard. After a real violation it stays raised: the remaining
+    // parts are skipped and the violation is reported at once (a later part could otherwise take the process down
+    // before the verdict is printed). An environment problem must not silence the parts that follow.
+    if report.failure.is_none() {
+        env.abort.store(false, Ordering::Relaxed);
+    }
     report
 }
 
@@ -778,7 +782,6 @@ where
         exhaustive,
         inconclusive: None,
     };
-    env.abort.store(false, Ordering::Relaxed);
     let shards = env.shards.max(1);
     let results: Vec<(Stats, Option<Failure>)> = std::thread::scope(|s| {
         let handles: Vec<_> = (0..shards)
